@@ -39,7 +39,7 @@ Proof.
   - intros E. inversion E. reflexivity.
   - intros E. inversion E. reflexivity.
   - destruct (rw_reg s j); intros E; inversion E; [|reflexivity]. unfold raw_post.
-    destruct (efd_raw _ =? 0); destruct (k_write _ _ _ _); reflexivity.
+    destruct (raw_is_pipe _ _); destruct (k_write _ _ _ _); reflexivity.
   - intros E. inversion E. reflexivity.
 Qed.
 
